@@ -1132,14 +1132,12 @@ asn1c_lang_C_type_CHOICE_def(arg_t *arg) {
     if(elements && (arg->flags & A1C_GEN_PER)) {
         cmap = compute_canonical_members_order(arg, elements);
         if(cmap) {
+            /*
+             * cmap[] lists the members in canonical order: cmap[position]
+             * is the member's index in the order of definition, that is the
+             * "from canonical" map; "to canonical" is its inverse.
+             */
             OUT("static const unsigned asn_MAP_%s_to_canonical_%d[] = {",
-                MKID(expr), expr->_type_unique_index);
-            for(int i = 0; i < elements; i++) {
-                if(i) OUT(",");
-                OUT(" %d", cmap[i]);
-            }
-            OUT(" };\n");
-            OUT("static const unsigned asn_MAP_%s_from_canonical_%d[] = {",
                 MKID(expr), expr->_type_unique_index);
             for(int i = 0; i < elements; i++) {
                 if(i) OUT(",");
@@ -1151,6 +1149,13 @@ asn1c_lang_C_type_CHOICE_def(arg_t *arg) {
                     }
                 }
                 assert(j < elements);
+            }
+            OUT(" };\n");
+            OUT("static const unsigned asn_MAP_%s_from_canonical_%d[] = {",
+                MKID(expr), expr->_type_unique_index);
+            for(int i = 0; i < elements; i++) {
+                if(i) OUT(",");
+                OUT(" %d", cmap[i]);
             }
             OUT(" };\n");
             free(cmap);
